@@ -35,7 +35,7 @@ def _sem(count):
     return s
 
 
-def sliding_window_waiters(count, nacq, c0, c1, c2, c3, c4, c5):
+def sliding_window_waiters(count, nacq, c0, c1, c2, c3, c4, c5, s1=-1, t1=0, s2=-1, t2=0):
     """C04.5 / C12.3: `nacq` threads each acquire (blocking) one token of one tag and release it; capacity `count` <
     nacq so some of them block.  Every interleaving of the monitor sections (choices symbolic, incl. which waiter a
     notify wakes): nobody stays blocked forever, tokens are 0..nacq-1 each once, capacity is back at the end."""
@@ -58,10 +58,17 @@ def sliding_window_waiters(count, nacq, c0, c1, c2, c3, c4, c5):
             return 'sem: more tokens held at once than the capacity'
         return None
 
-    sch = co.Scheduler([c0, c1, c2, c3, c4, c5], max_steps=300)
+    pre = []
+    if s1 >= 0:
+        pre.append((s1, t1))
+        if s2 >= 0:
+            pre.append((s1 + 1 + s2, t2))
+    # with preemptions: thread 0 first, then the last one, the middle ones last (a parked waiter is overtaken)
+    prio = [nacq + 1] + [1] * (nacq - 2) + [2] if pre else None
+    sch = co.Scheduler([c0, c1, c2, c3, c4, c5], max_steps=300, preempt=pre, prio=prio)
     v = sch.run([worker() for _ in range(nacq)], invariant)
     if v:
-        return 'sem: ' + v
+        return v if v.startswith('sem:') else 'sem: ' + v
     if sorted(got) != list(range(nacq)):
         return 'sem: tokens are not 0..n-1 each once'
     if s._count != count:
@@ -342,6 +349,20 @@ OB_SEM = dict(id='CO.sem', impl='sliding_window_waiters', params=_C6, cases=[(1,
                      '(monitor-level interleavings; which waiter a notify wakes is a choice too)',
               encodes=['SlidingWindowSemaphore.acquire (blocking)', 'release', 'Condition wait/notify'],
               assumptions=['co-versions generated from the source', 'model Condition: notify wakes one chosen waiter'])
+def sliding_window_preempt(count, nacq, s1, t1, s2, t2):
+    return sliding_window_waiters(count, nacq, 0, 0, 0, 0, 0, 0, s1, t1, s2, t2)
+
+
+OB_SEMP = dict(id='CO.sem-preempt', impl='sliding_window_preempt', params='s1: int, t1: int, s2: int, t2: int',
+               cases=[(1, 3)], cases_thorough=[(1, 3), (2, 4)],
+               pre=['0 <= s1 <= 12', '0 <= s2 <= 24', '0 <= t1 <= 3', '0 <= t2 <= 3'],
+               splits=[['t1 == 1', 't2 == 1', 's1 <= 3'], ['t1 == 1', 't2 == 1', '3 < s1 <= 7'], ['t1 == 1', 't2 == 1', '7 < s1']],
+               splits_thorough=[['t1 == %d' % a, 't2 == %d' % b] for a in range(3) for b in range(3)],
+               timeout=(170, 1200),
+               bounds='capacity 1 with 3 acquirers (thorough also 2 with 4); priority schedule plus two preemptions at '
+                      'symbolic steps (quick: both to the parked waiter) - a woken waiter can be overtaken by a newcomer',
+               encodes=['SlidingWindowSemaphore.acquire (blocking, wake-up re-check)', 'release', 'Condition'],
+               assumptions=['co-versions generated from the source', 'model Condition'])
 OB_CCI = dict(id='CO.invoker', impl='count_callback', params='c0: int, c1: int, c2: int, c3: int, c4: int',
               cases=[(1,), (2,), (3,)], pre=_C6P[:5], timeout=(170, 900),
               bounds='1..3 part tasks + the submitter, 5 symbolic scheduling choices',
